@@ -3,6 +3,12 @@ From Coq Require Import List Arith Bool Lia.
 Import ListNotations.
 Require Import MayV.Queue.MpscFullModel MayV.Queue.MpscFullInv MayV.Queue.MpscFullTac.
 
+Lemma upd_true_mono (f : nat -> bool) i j : f j = true -> upd f i true j = true.
+Proof. intros H. unfold upd. destruct (Nat.eqb j i); auto. Qed.
+Lemma andb_upd_neq (c : bool) (f : nat -> bool) i0 t : (c = true -> t <> i0) -> c && upd f i0 true t = c && f t.
+Proof. intros H. destruct c; cbn; auto. rewrite upd_neq; auto. Qed.
+
+
 Section S.
 Variable B : nat.
 Hypothesis Bpos : 1 <= B.
@@ -87,4 +93,24 @@ Proof.
   - destruct Hc; congruence.
   - destruct Hc; congruence.
 Qed.
+(* a pusher between its CAS and its ready store works on an allocated block *)
+Lemma pw_live s p : Inv s -> pw_common B s p (P s p) -> pp (P s p) <> PIdle -> live s (gk (P s p)).
+Proof.
+  intros Hi (W1 & W2 & W3 & W4 & W5 & W6 & W7 & W8) N.
+  pose proof (active_nodrop s p Hi N) as ND. unfold live. rewrite (nodrop_lhi s Hi ND).
+  destruct (I_rng _ _ Hi) as (R1 & R2 & R3 & R4 & R5 & R6). pose proof (hpos_bounds s Hi) as [Hb1 Hb2].
+  unfold pslot in *. split; [|lia].
+  assert (ghk (G s) <= gk (P s p)); [|lia].
+  destruct (le_lt_dec (ghk (G s)) (gk (P s p))); auto. exfalso. nia.
+Qed.
+(* two pushers between CAS and ready store own different slots *)
+Lemma pw_distinct s p q : pw_common B s p (P s p) -> pw_common B s q (P s q) -> p <> q ->
+  gk (P s p) <> gk (P s q) \/ li (P s p) <> li (P s q).
+Proof.
+  intros (W1 & W2 & W3 & W4 & W5 & _) (V1 & V2 & V3 & V4 & V5 & _) N.
+  destruct (Nat.eq_dec (gk (P s p)) (gk (P s q))) as [e|]; auto. destruct (Nat.eq_dec (li (P s p)) (li (P s q))) as [e'|]; auto.
+  exfalso. unfold pslot in *. rewrite e, e' in W5. rewrite W5 in V5. congruence.
+Qed.
+
+
 End S.
